@@ -68,7 +68,16 @@
      stores    : [SStoreSlice x lo hi step e] is x[lo:hi:step] = e: the positions of the Python slice (negative steps, clamping) are
                  written in order from an array of the same length, or from one value (an array of length 1 or a scalar: numpy
                  broadcasts it, also into an empty slice); any other length is ValueError;
-     exceptions: SpectrumError (an exception class of spectrum/errors.py: errors.is_positive_integer). *)
+     exceptions: SpectrumError (an exception class of spectrum/errors.py: errors.is_positive_integer).
+
+   Added for lpc (T10):
+     transforms: [EIfft a n w] is numpy.fft.ifft(a[, n]) = [idft (tw m) m a] of Theory/Dft.v (the conjugate twiddles tw m (-jk), divided by
+                 m), through the same hidden twiddle parameter as [EFft];
+     integers  : [ENextPow2 n] is spectrum.tools.nextpow2 = ceil(log2(n)) on a POSITIVE integer-valued argument (the translator accepts
+                 the call only while the text of nextpow2 is `res = ceil(log2(x)); return res.astype('int')` with numpy's ceil / log2, and
+                 translates the argument in integer arithmetic: `2.*len(x)-1` is the integer 2*len(x)-1; exact for n < 2^52); = Z.log2_up;
+                 n <= 0 (log2 of a non-positive number: nan / -inf cast to int) is [Unsupported];  [EPow2 k] is 2 ** k for k >= 0
+                 (negative k: [Unsupported]). *)
 Require Import Spectrum.Theory.Ops Spectrum.Theory.Vec Spectrum.Theory.Dft.
 From Coq Require Import String.
 From Coq Require Export ZArith List.
@@ -122,7 +131,10 @@ Inductive expr :=
 | EMaxArr (a : expr)                            (* builtin max(a) over a 1-D array *)
 | EMean (a : expr) (axis : option expr)         (* numpy.mean(a[, axis=0|-1]) on a 1-D array *)
 | EIsInt (a : expr)                             (* type(a) == int *)
-| ENdim (a : expr).                             (* a.ndim *)
+| ENdim (a : expr)                              (* a.ndim *)
+| EIfft (a : expr) (n : option expr) (w : expr) (* T10: numpy.fft.ifft(a[, n]); w: the hidden twiddle parameter *)
+| ENextPow2 (a : expr)                          (* T10: tools.nextpow2(n) = ceil(log2(n)) of a positive integer-valued argument *)
+| EPow2 (a : expr).                             (* T10: 2 ** k for an int k >= 0 *)
 
 Inductive stmt :=
 | SSkip
@@ -455,6 +467,13 @@ Fixpoint eval (st : store) (e : expr) {struct e} : R value :=
       end
   | EIsInt a => va <- eval st a ;; match va with VI _ => ok (VB true) | _ => ok (VB false) end
   | ENdim a => va <- eval st a ;; match va with VArr _ _ => ok (VI 1) | VMat _ _ _ => ok (VI 2) | _ => err TypeError end
+  | EIfft a n w => va <- eval st a ;; rl <- asArr va ;; k <- eval_opt (eval st) n ;; vw <- eval st w ;;
+      match vw with
+      | VTw tw => m <- fft_points (length (snd rl)) k ;; ok (VArr false (idft (tw m) m (snd rl)))
+      | _ => err TypeError
+      end
+  | ENextPow2 a => va <- eval st a ;; n <- asZ va ;; if (n <=? 0)%Z then err Unsupported else ok (VI (Z.log2_up n))
+  | EPow2 a => va <- eval st a ;; n <- asZ va ;; if (n <? 0)%Z then err Unsupported else ok (VI (2 ^ n))
   end.
 
 Inductive ctl := CNormal | CBreak | CContinue | CRet (vs : list value) | CErr (e : exc).
